@@ -194,6 +194,11 @@ def execute(sc, ctx):
         changed = _apply_edit(path, data, e, pos)
         if not changed:
             continue
+        keep_mtime = e != "remove" and core.h64(sc["triple_seed"], "km", os.path.relpath(path, w.base), e, pos, c) % 2 == 0
+        if keep_mtime:
+            # the damaged file keeps its old modification time and the folder's too
+            os.utime(path, ns=(st.st_mtime_ns, st.st_mtime_ns))
+            ctx.probe("tamper_with_preserved_mtime")
         tampered = core.snapshot(w.sandbox)
         argv = _argv(c, r, w, top_file)
         res = w.run_cmd(argv)
@@ -203,7 +208,7 @@ def execute(sc, ctx):
         ctx.fault(("remove_chain" if kind == "chain" else "remove_manifest") if e == "remove" else "tamper_" + e)
         ctx.nontrivial = True
         depth = os.path.relpath(hr, r).count(os.sep) + (0 if hr == r else 1)
-        ctx.state(e, c, depth, posn, kind)
+        ctx.state(e, c, depth, posn, kind, keep_mtime)
         ctx.note("triple", os.path.relpath(path, w.base), e, pos, c, os.path.relpath(r, w.base), res.outcome)
         want = 32 if kind == "chain" else 33 if e == "remove" else 31
         pin = {"triples": [[os.path.relpath(path, w.base), e, pos, c, os.path.relpath(r, w.base)]]}
